@@ -63,6 +63,10 @@ def services():
             ir.arg("hs", P("STRING"), "header", "X-Str"), ir.arg("ho", ir.optional(P("INTEGER")), "header", "X-Opt"),
             ir.arg("hu", P("UUID"), "header", "X-Uuid"), ir.arg("ha", R("PlStr"), "header", "X-Alias"),
             ir.arg("he", ir.optional(R("Color")), "header", "X-Enum"), ir.arg("hd", P("DOUBLE"), "header", "X-Dbl")], returns=P("STRING")),
+        # a handler that also receives the request context (server-request-context); an alias of optional as a header argument
+        ir.endpoint("ctxCall", "GET", "/m/ctx/{p}", [ir.arg("p", P("STRING"), "path"), ir.arg("hoa", R("OptStrAlias"), "header", "X-OptAlias"),
+                                                    ir.arg("q", ir.optional(P("STRING")), "query", "q")],
+                    returns=P("STRING"), tags=["server-request-context"]),
         ir.endpoint("authHeader", "GET", "/m/auth", [ir.arg("q", P("STRING"), "query", "q")], returns=P("STRING"), auth="header"),
         ir.endpoint("authCookie", "GET", "/m/cookie", [], returns=P("STRING"), auth="sid"),
         ir.endpoint("jsonBody", "POST", "/m/body", [ir.arg("body", R("DoubleBag"), "body")], returns=R("DoubleBag")),
